@@ -4,15 +4,27 @@
 (*                                                                         *)
 (* The application state is a map from CELLS to values; a cell is a pair   *)
 (* (module store, key), numbered c = (store-1)*NK + key, value 0 = absent. *)
+(* Store s belongs to module s (two registered modules); the command       *)
+(* belongs to module 1.                                                    *)
 (* A transaction is a command SCRIPT: a sequence of writes <<cell, value>> *)
-(* (value 0 = delete), a pattern of emitted events (0 = revertible,        *)
-(* 1 = unrevertible) and an outcome ok | fail.                             *)
+(* (value 0 = delete; <<0, 1>> = the command takes a snapshot of the       *)
+(* stores, <<0, 2>> = it restores its latest snapshot), a pattern of       *)
+(* emitted events (0 = revertible, 1 = unrevertible) and an outcome        *)
+(* ok | fail.  Around the command run the hooks of the modules:            *)
+(*   hw  write of a BeforeCommandExecute hook (+ one revertible and one    *)
+(*       unrevertible event of that module)                                *)
+(*   aw  write of an AfterCommandExecute hook (+ the same two events); it  *)
+(*       runs after the failure has been undone, so it always stays        *)
+(*   bh  write of a BeforeTransactionsExecute hook (first thing in a block)*)
+(*   ah  write of an AfterTransactionsExecute hook (last thing in a block) *)
+(* The hook that writes cell c is the hook of the module owning c.         *)
 (*                                                                         *)
-(*   ExecuteTx   failure: state = the snapshot taken before the command,   *)
-(*               revertible events dropped, unrevertible ones kept, the    *)
-(*               standard event (success = false) appended; success: both  *)
-(*               kept, standard event (success = true) appended; indexes   *)
-(*               consecutive within the block                              *)
+(*   ExecuteTx   failure: state = the snapshot taken before the command    *)
+(*               (after the before-hooks), the command's revertible events *)
+(*               dropped, unrevertible ones kept, then the after-hooks'    *)
+(*               effects, then the standard event (success = false);       *)
+(*               success: all kept, standard event (success = true);       *)
+(*               indexes consecutive within the block                      *)
 (*   Commit      root = Tree(state): the canonical LIP-0039 tree of the    *)
 (*               PRESENT cells (deleted cells are absent).  As in SMT.tla  *)
 (*               the root is a TERM  E | L(cell, value) | B(p, l, r); the  *)
@@ -21,11 +33,20 @@
 (*               getTreeKey); KeyBits[c] are its leading bits.  B carries  *)
 (*               in p the bits shared by all keys below it above the split *)
 (*               (a chain of branches with one empty child each).          *)
+(*   Reject      the block in execution is offered with a header root that *)
+(*               is NOT the root of its resulting state: Commit fails and  *)
+(*               nothing changes                                           *)
 (*   Revert      undoes the diff recorded by Commit (StagedStore!DiffOf /  *)
 (*               Revert): previous state and previous root                 *)
+(*   BadRevert   Revert with a wrong expected root: fails, nothing changes *)
 (*   Crash       Commit reached the application but not the engine         *)
 (*   Restart     InitRecovery(appHeight, engineHeight): the application    *)
 (*               rolls back to the engine's tip                            *)
+(*   BadInit     a start with a root that is not the application's: fails, *)
+(*               nothing changes, the next start with the right root works *)
+(*   Genesis     the state written by InitGenesisState becomes height 0;   *)
+(*               the root the application GENERATES for the genesis block, *)
+(*               the root its Commit computes and Tree(state) agree        *)
 (*                                                                         *)
 (*   chain : committed application states, chain[h+1] = height h           *)
 (*   engH  : height of the engine's tip (appH = Len(chain)-1 >= engH)      *)
@@ -37,8 +58,9 @@ EXTENDS Integers, Sequences, FiniteSets, TLC, Json
 
 CONSTANTS NS, NK, NV,   \* module stores, keys per store, values 1..NV
           KeyBits,      \* cell -> leading bits of its state-tree key (sequence of 0/1)
-          Presets,      \* set of states (sequences over cells) a "preset" step may establish at height 1
-          Plan,         \* Plan[i] = [k: kinds allowed at step i, cells, mw, me, mo: bounds of a tx at step i]
+          Presets,      \* set of states (sequences over cells) a "preset" / "genesis" step may establish
+          Plan,         \* Plan[i] = [k: kinds allowed at step i, cells, mw, me, mo: bounds of a tx at step i,
+                        \*            sn: snapshot / restore allowed in the script]
           MaxTx,        \* transactions per block
           MaxHeight,
           Sim,          \* TRUE: scripts are drawn at random (for -simulate) instead of enumerated
@@ -60,8 +82,22 @@ ASSUME /\ \A c \in Cell : \A d \in Cell : c # d => KeyBits[c] # KeyBits[d]
 
 (* ------------------------------ state maps ------------------------------ *)
 Apply(s, w) == [s EXCEPT ![w[1]] = w[2]]
-RECURSIVE ApplyAll(_, _)
-ApplyAll(s, ws) == IF ws = <<>> THEN s ELSE ApplyAll(Apply(s, Head(ws)), Tail(ws))
+ApplyOpt(s, w) == IF w = <<>> THEN s ELSE Apply(s, w)
+SNAP == <<0, 1>>
+RESTORE == <<0, 2>>
+\* s: the stores, sn: the command's latest snapshot not yet restored (<<>>: none), ws: the rest of the script.
+\* A restore without a snapshot is not a call at all (the harness skips it).
+RECURSIVE RunScript(_, _, _)
+RunScript(s, sn, ws) ==
+  IF ws = <<>> THEN s
+  ELSE LET x == Head(ws) IN
+       IF x[1] # 0 THEN RunScript(Apply(s, x), sn, Tail(ws))
+       ELSE IF x = SNAP THEN RunScript(s, <<s>>, Tail(ws))
+       ELSE IF sn = <<>> THEN RunScript(s, sn, Tail(ws))
+       ELSE RunScript(sn[1], <<>>, Tail(ws))
+ApplyAll(s, ws) == RunScript(s, <<>>, ws)
+\* ws with a snapshot taken after i of its operations and restored after j of them
+WithSnap(ws, i, j) == SubSeq(ws, 1, i) \o <<SNAP>> \o SubSeq(ws, i + 1, j) \o <<RESTORE>> \o SubSeq(ws, j + 1, Len(ws))
 
 Present(s) == {c \in Cell : s[c] # 0}
 AsSet(s) == {<<c, s[c]>> : c \in Present(s)}
@@ -93,16 +129,26 @@ RECURSIVE Leaves(_)
 Leaves(t) == IF t.t = "E" THEN {} ELSE IF t.t = "L" THEN {<<t.c, t.v>>} ELSE Leaves(t.l) \cup Leaves(t.r)
 
 (* -------------------------------- events -------------------------------- *)
-\* n = position in the command's pattern (0: the standard event), s = success flag of the standard event
+\* n > 0: position in the command's pattern; 0: the standard event (s = its success flag, -1 for all others);
+\* n < 0: events of hooks, one revertible and one unrevertible each:
+\*   -1, -4  BeforeCommandExecute          -2, -3  AfterCommandExecute
+\*   -5, -6  BeforeTransactionsExecute     -7, -8  AfterTransactionsExecute
+E(n) == [n |-> n, s |-> -1]
 RECURSIVE Keep(_, _, _)
 Keep(e, i, ok) ==
   IF i > Len(e) THEN <<>>
-  ELSE (IF ok \/ e[i] = 1 THEN <<[n |-> i, s |-> -1]>> ELSE <<>>) \o Keep(e, i + 1, ok)
-Response(e, ok) == Keep(e, 1, ok) \o <<[n |-> 0, s |-> IF ok THEN 1 ELSE 0]>>
-\* a module hook that runs before the command (BeforeCommandExecute: fee, nonce ...) writes hw = <<cell, value>> and logs
-\* one revertible event (n = -1).  The statement protects it: a failing command is undone back to the state "before the
-\* command ran" - that is after the hooks - and only "the command's revertible events" are discarded.
-HookEv(hw) == IF hw = <<>> THEN <<>> ELSE <<[n |-> -1, s |-> -1]>>
+  ELSE (IF ok \/ e[i] = 1 THEN <<E(i)>> ELSE <<>>) \o Keep(e, i + 1, ok)
+\* A hook that runs before the command (fee, nonce ...) writes hw = <<cell, value>> and logs events.  The statement
+\* protects them: a failing command is undone back to the state "before the command ran" - that is after these hooks -
+\* and only "the command's revertible events" are discarded.  The after-hooks run when the failure has been undone:
+\* whatever they write and log stays, revertible or not.  The standard event closes the transaction.
+HookEv(hw) == IF hw = <<>> THEN <<>> ELSE <<E(-1), E(-4)>>
+AfterEv(aw) == IF aw = <<>> THEN <<>> ELSE <<E(-2), E(-3)>>
+BlockEvB(bh) == IF bh = <<>> THEN <<>> ELSE <<E(-5), E(-6)>>
+BlockEvA(ah) == IF ah = <<>> THEN <<>> ELSE <<E(-7), E(-8)>>
+Response(e, ok, hw, aw) == HookEv(hw) \o Keep(e, 1, ok) \o AfterEv(aw) \o <<[n |-> 0, s |-> IF ok THEN 1 ELSE 0]>>
+\* the block's event log: consecutive indexes
+Num(base, evs, t) == base \o [i \in 1..Len(evs) |-> [n |-> evs[i].n, s |-> evs[i].s, tx |-> t, idx |-> Len(base) + i - 1]]
 
 (* ---------------------------------- steps -------------------------------- *)
 appH == Len(chain) - 1
@@ -113,7 +159,8 @@ P == Plan[Step]
 Allowed(k) == Planned /\ k \in P.k
 
 Rec(op, w, e, ok, pre, st, off, ev, h, root, ahead) ==
-  [op |-> op, w |-> w, e |-> e, ok |-> ok, pre |-> pre, st |-> st, off |-> off, ev |-> ev, h |-> h, root |-> root, ahead |-> ahead, hw |-> <<>>]
+  [op |-> op, w |-> w, e |-> e, ok |-> ok, pre |-> pre, st |-> st, off |-> off, ev |-> ev, h |-> h, root |-> root, ahead |-> ahead,
+   hw |-> <<>>, aw |-> <<>>, mid |-> st, bh |-> <<>>, ah |-> <<>>, bad |-> ""]
 NoTerm == [t |-> "-"]
 
 Init ==
@@ -126,54 +173,111 @@ CanRevert == engH = appH /\ ~open /\ appH >= 1
 CanRestart == TRUE
 CanRecover == appH > engH      \* plan kind "recover": a restart only where the application is ahead
 CanPreset == engH = appH /\ ~open /\ appH = 0
+CanBadInit == engH = appH
+CanGenesis == trace = <<>>
 
-TxRecH(w, e, ok, hw) ==
-  LET pre == IF open THEN wst ELSE Tip.st
-      base == IF open THEN evlog ELSE <<>>
-      snapshot == IF hw = <<>> THEN pre ELSE Apply(pre, hw)      \* taken after the hooks, before the command
+\* The writes of the block hooks are functions of what is chosen anyway (not one more dimension of the enumeration); in
+\* simulation they are drawn at random.
+LoCell == 1
+HiCell == NC
+BHOf(k) == IF k % 2 = 0 THEN <<>> ELSE <<IF (k \div 2) % 2 = 0 THEN HiCell ELSE LoCell, ((k \div 4) % NV) + 1>>
+AHOf(k) == IF k % 2 = 0 THEN <<>> ELSE <<IF (k \div 2) % 2 = 0 THEN LoCell ELSE HiCell, (k \div 4) % (NV + 1)>>
+BlockWrites == {<<>>} \cup ({LoCell, HiCell} \X (0..NV))
+
+\* a transaction; bh: the BeforeTransactionsExecute hook's write if this transaction opens the block
+TxRecH(w, e, ok, hw, aw, bh) ==
+  LET pre == IF open THEN wst ELSE ApplyOpt(Tip.st, bh)
+      base == IF open THEN evlog ELSE Num(<<>>, BlockEvB(bh), 0)
+      snapshot == ApplyOpt(pre, hw)                               \* taken after the before-hooks, before the command
       after == ApplyAll(snapshot, w)
-      post == IF ok THEN after ELSE snapshot
-  IN [Rec("tx", w, e, IF ok THEN 1 ELSE 0, pre, post, Len(base), HookEv(hw) \o Response(e, ok), appH + 1, NoTerm, 0) EXCEPT !.hw = hw]
-TxRec(w, e, ok) == TxRecH(w, e, ok, <<>>)
+      mid == IF ok THEN after ELSE snapshot
+      post == ApplyOpt(mid, aw)
+  IN [Rec("tx", w, e, IF ok THEN 1 ELSE 0, pre, post, Len(base), Response(e, ok, hw, aw), appH + 1, NoTerm, 0)
+        EXCEPT !.hw = hw, !.aw = aw, !.mid = mid, !.bh = IF open THEN <<>> ELSE bh]
+TxRec(w, e, ok) == TxRecH(w, e, ok, <<>>, <<>>, <<>>)
 
-DoTx(w, e, ok, hw) ==
-  LET r == TxRecH(w, e, ok, hw)
-      base == IF open THEN evlog ELSE <<>>
+DoTx(w, e, ok, hw, aw, bh) ==
+  LET r == TxRecH(w, e, ok, hw, aw, bh)
+      base == IF open THEN evlog ELSE Num(<<>>, BlockEvB(bh), 0)
+      t == (IF open THEN ntx ELSE 0) + 1
   IN /\ open' = TRUE
      /\ wst' = r.st
-     /\ evlog' = base \o [i \in 1..Len(r.ev) |-> [n |-> r.ev[i].n, s |-> r.ev[i].s, tx |-> (IF open THEN ntx ELSE 0) + 1, idx |-> Len(base) + i - 1]]
-     /\ ntx' = (IF open THEN ntx ELSE 0) + 1
+     /\ evlog' = Num(base, r.ev, t)
+     /\ ntx' = t
      /\ trace' = Append(trace, r)
      /\ UNCHANGED <<chain, engH>>
 
+\* hook modes <<cell of the before-hook's write, cell of the after-hook's write>> (0: that hook does nothing); lo belongs
+\* to module 1 (the command's), hi to module 2
+HookModes(lo, hi) == <<<<lo, hi>>, <<hi, lo>>, <<hi, hi>>, <<lo, 0>>, <<0, hi>>>>
+HookWrites(m, hv, av) == <<IF m[1] = 0 THEN <<>> ELSE <<m[1], hv>>, IF m[2] = 0 THEN <<>> ELSE <<m[2], av>>>>
+
 Tx ==
   /\ Allowed("tx") /\ CanTx
-  /\ LET W == P.cells \X (0..NV)
-         \* the hook's write is a function of the step (one more binary choice per transaction, not one more dimension)
-         HC == CHOOSE c \in P.cells : \A d \in P.cells : c <= d
-         HWs == {<<>>, <<HC, (Step % NV) + 1>>} IN
+  /\ LET Snaps == IF P.sn THEN {SNAP, RESTORE} ELSE {}
+         W == (P.cells \X (0..NV)) \cup Snaps
+         lo == CHOOSE c \in P.cells : \A d \in P.cells : c <= d
+         hi == CHOOSE c \in P.cells : \A d \in P.cells : c >= d
+         HM == HookModes(lo, hi) IN
      IF Sim
-     THEN \E ok \in BOOLEAN : \E hw \in {RandomElement(HWs)} :
+     THEN \E ok \in BOOLEAN : \E hk \in {RandomElement(0..Len(HM))} :
+          \E hv \in {RandomElement(1..NV)} : \E av \in {RandomElement(0..NV)} :
+          \E bh \in {RandomElement(BlockWrites)} :
           \E n \in {RandomElement(0..P.mw)} :
           \E a1 \in {RandomElement(W)} : \E a2 \in {RandomElement(W)} : \E a3 \in {RandomElement(W)} : \E a4 \in {RandomElement(W)} :
           \E m \in {RandomElement(0..Min(P.me, P.mo - n))} :
           \E b1 \in {RandomElement({0, 1})} : \E b2 \in {RandomElement({0, 1})} : \E b3 \in {RandomElement({0, 1})} :
-            DoTx(SubSeq(<<a1, a2, a3, a4>>, 1, Min(n, 4)), SubSeq(<<b1, b2, b3>>, 1, Min(m, 3)), ok, hw)
+          \E sp \in {RandomElement(0..2)} : \E si \in {RandomElement(0..Min(n, 4))} : \E sj \in {RandomElement(0..Min(n, 4))} :
+            LET hws == IF hk = 0 THEN <<<<>>, <<>>>> ELSE HookWrites(HM[hk], hv, av)
+                ws0 == SubSeq(<<a1, a2, a3, a4>>, 1, Min(n, 4))
+                \* every third script brackets some of its operations with a snapshot and its restoration
+                ws == IF P.sn /\ sp = 0 /\ si <= sj THEN WithSnap(ws0, si, sj) ELSE ws0
+            IN DoTx(ws, SubSeq(<<b1, b2, b3>>, 1, Min(m, 3)), ok, hws[1], hws[2], bh)
      ELSE \E n \in 0..P.mw : \E w \in [1..n -> W] :
           \E m \in 0..Min(P.me, P.mo - n) : \E e \in [1..m -> {0, 1}] :
-          \E ok \in BOOLEAN : \E hw \in HWs : DoTx(w, e, ok, hw)
+          \E ok \in BOOLEAN : \E hook \in BOOLEAN :
+            \* one binary choice per transaction: no hook writes, or the mode / values / block hook picked by the script
+            LET k == Step + n + 2 * m + (IF ok THEN 1 ELSE 0) + (IF n > 0 THEN w[1][1] + w[1][2] ELSE 0)
+                hws == IF hook THEN HookWrites(HM[(k % Len(HM)) + 1], (k % NV) + 1, (k \div 2) % (NV + 1)) ELSE <<<<>>, <<>>>>
+            IN DoTx(w, e, ok, hws[1], hws[2], BHOf(k + (IF hook THEN 1 ELSE 0)))
+
+\* the block is complete: state and number of events after the AfterTransactionsExecute hook
+BlockEnd(bh, ah) ==
+  LET s0 == IF open THEN wst ELSE ApplyOpt(Tip.st, bh)
+      n0 == IF open THEN Len(evlog) ELSE Len(BlockEvB(bh))
+  IN [st |-> ApplyOpt(s0, ah), nev |-> n0 + Len(BlockEvA(ah))]
+\* the hooks of a block that ends at this step: <<bh, ah>> (bh only if no transaction has opened the block)
+EndHooks ==
+  IF Sim THEN {<<IF open THEN <<>> ELSE RandomElement(BlockWrites), RandomElement(BlockWrites)>>}
+  ELSE LET k == Step + ntx + Len(evlog) + Cardinality(Present(IF open THEN wst ELSE Tip.st))
+       IN {<<IF open THEN <<>> ELSE BHOf(k \div 2), AHOf(k)>>}
 
 CommitWith(crash) ==
-  LET s == IF open THEN wst ELSE Tip.st
+  \E hk \in EndHooks :
+  LET b == BlockEnd(hk[1], hk[2])
+      s == b.st
       r == Tree(s)
-      nev == IF open THEN Len(evlog) ELSE 0
   IN /\ chain' = Append(chain, [st |-> s, root |-> r, diff |-> SS!DiffOf(AsSet(Tip.st), AsSet(s))])
      /\ engH' = IF crash THEN engH ELSE engH + 1
      /\ open' = FALSE /\ wst' = Empty /\ evlog' = <<>> /\ ntx' = 0
-     /\ trace' = Append(trace, Rec(IF crash THEN "crash" ELSE "commit", <<>>, <<>>, 1, Tip.st, s, nev, <<>>, appH + 1, r, 0))
+     /\ trace' = Append(trace, [Rec(IF crash THEN "crash" ELSE "commit", <<>>, <<>>, 1, Tip.st, s, b.nev, <<>>, appH + 1, r, 0)
+                                  EXCEPT !.bh = hk[1], !.ah = hk[2]])
 
 Commit == Allowed("commit") /\ CanCommit /\ CommitWith(FALSE)
 Crash == Allowed("crash") /\ CanCommit /\ CommitWith(TRUE)
+
+\* A peer's block whose header root is not the root of its resulting state ("flip": some other value, "prev": the root
+\* of the state before the block, where the block changes the state): Commit fails, the block is dropped, the state,
+\* the chain and the application's height stay.  root = the wrong root for "prev" (a term), Tip.root otherwise.
+Reject ==
+  /\ Allowed("reject") /\ CanCommit
+  /\ \E hk \in EndHooks : \E bad \in {"flip", "prev"} :
+     LET b == BlockEnd(hk[1], hk[2]) IN
+     /\ bad = "prev" => Tree(b.st) # Tip.root
+     /\ trace' = Append(trace, [Rec("reject", <<>>, <<>>, 0, Tip.st, Tip.st, b.nev, <<>>, appH, Tip.root, 0)
+                                  EXCEPT !.bh = hk[1], !.ah = hk[2], !.bad = bad, !.mid = b.st])
+  /\ open' = FALSE /\ wst' = Empty /\ evlog' = <<>> /\ ntx' = 0
+  /\ UNCHANGED <<chain, engH>>
 
 \* undo the recorded diffs of the heights above `to`
 RECURSIVE RollFrom(_, _, _)
@@ -190,6 +294,15 @@ Revert ==
      /\ trace' = Append(trace, Rec("revert", <<>>, <<>>, 1, Tip.st, back, 0, <<>>, appH - 1, Tree(back), 0))
   /\ UNCHANGED <<open, wst, evlog, ntx>>
 
+\* the engine asks for the removal of its tip but expects a root that is not the previous block's ("flip": some other
+\* value, "prev": the root of the tip itself, where it differs from the previous one): Revert fails, nothing changes
+BadRevert ==
+  /\ Allowed("badrevert") /\ CanRevert
+  /\ \E bad \in {"flip", "prev"} :
+     /\ bad = "prev" => Tip.root # chain[Len(chain) - 1].root
+     /\ trace' = Append(trace, [Rec("badrevert", <<>>, <<>>, 0, Tip.st, Tip.st, 0, <<>>, appH, Tip.root, 0) EXCEPT !.bad = bad])
+  /\ UNCHANGED <<chain, engH, open, wst, evlog, ntx>>
+
 \* the process is restarted: a block in execution is lost; if the application is ahead of the engine
 \* (crash between the application's commit and the engine's) InitRecovery reverts it to the engine's tip
 Restart ==
@@ -199,6 +312,17 @@ Restart ==
      /\ trace' = Append(trace, Rec("restart", <<>>, <<>>, 1, Tip.st, back, 0, <<>>, engH, Tree(back), appH - engH))
   /\ open' = FALSE /\ wst' = Empty /\ evlog' = <<>> /\ ntx' = 0
   /\ UNCHANGED engH
+
+\* a start at which the engine names a root that is not the application's root at that height ("flip": some other value,
+\* "prev": the root of the height below, where it differs): Init fails, nothing changes, and a start with the right root
+\* succeeds afterwards.  (Only where no recovery is due: what a failing Init leaves of a recovery is not specified.)
+BadInit ==
+  /\ Allowed("badinit") /\ CanBadInit
+  /\ \E bad \in {"flip", "prev"} :
+     /\ bad = "prev" => appH >= 1 /\ Tip.root # chain[Len(chain) - 1].root
+     /\ trace' = Append(trace, [Rec("badinit", <<>>, <<>>, 0, Tip.st, Tip.st, 0, <<>>, engH, Tip.root, 0) EXCEPT !.bad = bad])
+  /\ open' = FALSE /\ wst' = Empty /\ evlog' = <<>> /\ ntx' = 0
+  /\ UNCHANGED <<chain, engH>>
 
 \* the engine comes back with an OLDER tip than the one the application has committed (its database was restored from a
 \* backup, or its last writes never reached the disk): the application is k >= 1 blocks ahead, on top of the one block a
@@ -225,26 +349,39 @@ Preset ==
        /\ trace' = trace \o <<r, Rec("commit", <<>>, <<>>, 1, Tip.st, r.st, 1, <<>>, 1, Tree(r.st), 0)>>
   /\ UNCHANGED <<open, wst, evlog, ntx>>
 
-Next == Tx \/ Commit \/ Crash \/ Revert \/ Restart \/ Lose \/ Preset
+\* the genesis block: the modules write p in InitGenesisState (each module the cells of its store); it becomes height 0
+Genesis ==
+  /\ Allowed("genesis") /\ CanGenesis
+  /\ \E p \in Presets :
+       /\ chain' = <<[st |-> p, root |-> Tree(p), diff |-> SS!DiffOf({}, AsSet(p))]>>
+       /\ trace' = <<Rec("genesis", PresetScript(p), <<>>, 1, Empty, p, 0, <<>>, 0, Tree(p), 0)>>
+  /\ UNCHANGED <<engH, open, wst, evlog, ntx>>
+
+Next == Tx \/ Commit \/ Crash \/ Reject \/ Revert \/ BadRevert \/ Restart \/ BadInit \/ Lose \/ Preset \/ Genesis
 Spec == Init /\ [][Next]_vars
 
 (* ------------------------------ properties ------------------------------ *)
 Last == trace[Len(trace)]
-\* a failed command leaves the state exactly as it was; a successful one applies all its writes
+\* a failed command leaves the state exactly as it was; a successful one applies all its writes; what the after-hooks
+\* write stays either way
 Atomic ==
   (Len(trace) > 0 /\ Last.op = "tx") =>
-     /\ LET before == IF Last.hw = <<>> THEN Last.pre ELSE Apply(Last.pre, Last.hw) IN     \* "before the command ran"
-        /\ Last.ok = 0 => Last.st = before
-        /\ Last.ok = 1 => Last.st = ApplyAll(before, Last.w)
+     /\ LET before == ApplyOpt(Last.pre, Last.hw) IN     \* "before the command ran"
+        /\ Last.ok = 0 => Last.mid = before
+        /\ Last.ok = 1 => Last.mid = ApplyAll(before, Last.w)
+        /\ Last.st = ApplyOpt(Last.mid, Last.aw)
      /\ open /\ wst = Last.st
-\* exactly one standard event, last, carrying the outcome; command events: all on success, the unrevertible ones on failure
+\* exactly one standard event, last, carrying the outcome; command events: all on success, the unrevertible ones on
+\* failure; the events of the hooks before and after the command survive success and failure alike
 EventsBookkeeping ==
   /\ (Len(trace) > 0 /\ Last.op = "tx") =>
-       LET ev == Last.ev  k == Len(ev)  h == IF Last.hw = <<>> THEN 0 ELSE 1 IN
-       /\ k >= 1 + h /\ ev[k].n = 0 /\ ev[k].s = Last.ok
-       /\ (h = 1 => ev[1].n = -1)                          \* the hook's event survives success and failure alike
-       /\ \A i \in (1 + h)..(k - 1) : ev[i].n > 0 /\ (i > 1 + h => ev[i - 1].n < ev[i].n)
-       /\ {ev[i].n : i \in (1 + h)..(k - 1)} = {i \in 1..Len(Last.e) : Last.ok = 1 \/ Last.e[i] = 1}
+       LET ev == Last.ev  k == Len(ev)  hb == Len(HookEv(Last.hw))  ha == Len(AfterEv(Last.aw)) IN
+       /\ k >= 1 + hb + ha /\ ev[k].n = 0 /\ ev[k].s = Last.ok
+       /\ \A i \in 1..k - 1 : ev[i].n # 0
+       /\ {ev[i].n : i \in 1..hb} = (IF hb = 0 THEN {} ELSE {-1, -4})
+       /\ {ev[i].n : i \in (k - ha)..(k - 1)} = (IF ha = 0 THEN {} ELSE {-2, -3})
+       /\ \A i \in (1 + hb)..(k - 1 - ha) : ev[i].n > 0 /\ (i > 1 + hb => ev[i - 1].n < ev[i].n)
+       /\ {ev[i].n : i \in (1 + hb)..(k - 1 - ha)} = {i \in 1..Len(Last.e) : Last.ok = 1 \/ Last.e[i] = 1}
   /\ \A i \in 1..Len(evlog) : evlog[i].idx = i - 1
   /\ \A i \in 1..Len(evlog) : \A j \in 1..Len(evlog) : (i < j) => evlog[i].tx <= evlog[j].tx
 \* the root is a function of the state, with deleted cells absent from the tree
@@ -256,6 +393,11 @@ RootFunctionOfState ==
 RevertInverse ==
   /\ (Len(trace) > 0 /\ Last.op \in {"revert", "restart"}) => Last.st = Tip.st /\ Last.root = Tip.root /\ Last.h = appH
   /\ \A i \in 2..Len(chain) : SS!DiffSound(AsSet(chain[i - 1].st), AsSet(chain[i].st))
+\* a rejected request changes nothing: the record names the committed tip
+Rejections ==
+  (Len(trace) > 0 /\ Last.op \in {"reject", "badrevert", "badinit"}) =>
+     /\ Last.st = Tip.st /\ Last.root = Tip.root /\ Last.pre = Tip.st /\ ~open
+     /\ Last.op = "reject" /\ Last.bad = "prev" => Tree(Last.mid) # Last.root
 \* the application is never behind the engine nor more than three blocks ahead (one by a crash, two by a lost engine tip); after recovery they agree
 Heights ==
   /\ engH <= appH /\ appH <= engH + 3 /\ appH <= MaxHeight
@@ -267,11 +409,15 @@ Stuck ==
   Planned /\ ~(\/ "tx" \in P.k /\ CanTx
                \/ "commit" \in P.k /\ CanCommit
                \/ "crash" \in P.k /\ CanCommit
+               \/ "reject" \in P.k /\ CanCommit
                \/ "revert" \in P.k /\ CanRevert
+               \/ "badrevert" \in P.k /\ CanRevert
                \/ "restart" \in P.k /\ CanRestart
+               \/ "badinit" \in P.k /\ CanBadInit
                \/ "recover" \in P.k /\ CanRecover
                \/ "lose" \in P.k /\ CanLose
-               \/ "preset" \in P.k /\ CanPreset)
+               \/ "preset" \in P.k /\ CanPreset
+               \/ "genesis" \in P.k /\ CanGenesis)
 Complete == Len(trace) > 0 /\ (~Planned \/ Stuck)
 DumpInv ==
   (DumpEvery > 0 /\ Complete /\ RandomElement(1..DumpEvery) = 1) => PrintT(<<"DUMP", ToJson(trace)>>)
